@@ -1,4 +1,5 @@
 //! Shared helpers for the verification harness binaries.
+pub mod session;
 pub mod rng {
     /// splitmix64-seeded xoshiro256**: every random choice of a run derives from one seed.
     #[derive(Clone)]
